@@ -16,7 +16,7 @@ import re
 from cxc import extract as X
 from cxc.extract import Cut, Rule, UF, IdxRule, UFArgs, ExtractError, match_close
 from cxc.unit import Unit
-from _common import member_rules
+from _common import member_rules, CRS_MEMBERS_C, crs_member_cuts
 from _relax_common import A_RELAX, VEC_PRELUDE, row_iter_rules
 from c06_kernels import COMPOUND, UF16, A_UF, A_UF16, NUMA_NEW, NUMA_DEREF, wit
 
@@ -56,7 +56,8 @@ class InitList(object):
 
 class RefDecl(object):
     """`T &name = e;` (T one of `types`) -> `T *const name = &(e);` and every later `name.member` -> `name->member`
-    (a C++ reference to an element of a container is a pointer to it; keyed on the declared type, not on the name)"""
+    (a C++ reference to an element of a container is a pointer to it; keyed on the declared type, not on the name).
+    Measured alternative (reference = container + index, every access re-subscripted): 30 % slower in CBMC."""
     early = False
 
     def __init__(self, types, count='+'):
@@ -207,7 +208,7 @@ def _value_members():
 
 
 VAL_MEMBERS = _value_members()
-VAL_LV = r'[\w.>()\[\]\-]*(?:->|\.)(?:%s)' % '|'.join(VAL_MEMBERS)
+VAL_LV = r'[^;{}=]*?(?:->|\.)(?:%s)' % '|'.join(VAL_MEMBERS)
 
 SV_MEMBERS = ['lfil', 'nz', 'idx', 'q', 'dia']
 # subscripts of the member containers: first `m[` -> `m.d[`, then the bounds obligations (inner subscript first: IdxRule does not descend)
@@ -246,7 +247,9 @@ HELPER_CUTS = {
 
 HELPERS_C = r'''
 #define CAP_ROW (NMAX + 1)
-#define CAP_FAC (NMAX * NMAX + 2)
+#ifndef CAP_FAC
+#define CAP_FAC ((NMAX * (NMAX - 1)) / 2 + 2)      /* a strictly triangular factor of an n x n matrix has <= n(n-1)/2 entries; n + 1 row pointers */
+#endif
 /* data members of iluk::nonzero, sparse_vector::comp_indices and iluk::sparse_vector in declaration order;
  * std::deque<nonzero> / std::vector<ptrdiff_t> / std::priority_queue<int, std::vector<int>, comp_indices>: capacity-sized storage + logical length (A-vec) */
 typedef struct { ptrdiff_t col; value_type val; int lev; } nonzero;
@@ -368,9 +371,9 @@ W_CALLS = [
 ]
 
 
-def ctor_rules(n_decl):
+def ctor_rules(n_decl, with_new=True):
     return row_iter_rules(1, 1, 1) + [
-        COMPOUND_OPT, NUMA_NEW, NUMA_DEREF,
+        COMPOUND_OPT] + ([NUMA_NEW] if with_new else []) + [NUMA_DEREF,
         Rule(r'^\s*typedef [^;\n]*\bbuild_matrix;\n', '', None, why='R-tmpl: build_matrix = backend::crs<V, C, P> (typedef in the template)'),
         Rule(r'std_make_shared<build_matrix>\(', 'crs_from_ranges(', None, why='R-new make_shared<crs>(n, m, ptr, col, val): range constructor of crs (unit adapt_crs_range_ctor)'),
         Rule(r'^(\s*)ilu = std_make_shared<ilu_solve>\(', r'\1ILU_MADE(self, ', None,
@@ -582,19 +585,595 @@ void h_iluk(void)
 }
 """,
     entry='h_iluk', mode='unwound', unwind='NMAX*NMAX+3', model='uf',
-    defines={'LEVSUM': 1, 'IN': 1},
-    variants=[{'NMAX': 3, 'ZMAX': 9, 'K': 1}],
+    defines={'LEVSUM': 0, 'IN': 1},
+    variants=[{'NMAX': 3, 'ZMAX': 9, 'K': 1}, {'NMAX': 3, 'ZMAX': 6, 'K': 0, 'IN': 0}, {'NMAX': 3, 'ZMAX': 6, 'K': 1, 'IN': 0}],
     bound_text='',
     assumptions=A_ILUK, replay='iluk', timeout=300, witness=wit('A'),
     not_decided=NOT_DECIDED_ILUK)
 
-# per-loop limits (unwinding assertions stay on): rows <= n, stored entries of a row <= NMAX (IN=1: exactly NMAX slots; IN=0: strictly ascending), pivots of a row < n,
-# entries of a U row < n, work vector <= n entries; stubs: CAP_ROW = NMAX + 1
-ILUK_UNWINDSET = [(r'for\(ptrdiff_t i = 0;', 'NMAX+1'), (r'for \(ptrdiff_t a = A\.ptr', 'NMAX+1'), (r'while\(!pq_empty', 'NMAX+1'), (r'for\(ptrdiff_t j = Uptr', 'NMAX+1'),
+# per-loop limits (unwinding assertions stay on): rows <= n, stored entries of a row <= NMAX (IN=1: exactly NMAX slots; IN=0: strictly ascending), pivots of a row <= n - 1
+# (limit NMAX = NMAX - 1 iterations + the exit test), entries of a U row <= n - 1, work vector <= n entries; stubs: CAP_ROW = NMAX + 1
+ILUK_UNWINDSET = [(r'for\(ptrdiff_t i = 0;', 'NMAX+1'), (r'for \(ptrdiff_t a = A\.ptr', 'NMAX+1'), (r'while\(!pq_empty', 'NMAX'), (r'for\(ptrdiff_t j = Uptr', 'NMAX'),
                   (r'for \(size_t e_i = 0;', 'NMAX+2'), (r'< CAP_ROW;', 'NMAX+2'), (r'< NMAX;', 'NMAX+1')]
 iluk_ctor.unwindset = ILUK_UNWINDSET
 
-UNITS = [iluk_ctor]
+# ============================================================================ the row step (inductive step of the constructor's row loop)
+STEP_ANCHOR = r'for\(ptrdiff_t i = 0; i < static_cast<ptrdiff_t>\(n\); \+\+i\)\s*(?=\{)'
+STEP_CUT = Cut(ILUK, STEP_ANCHOR, rules=ctor_rules(0, with_new=False), uf=CTOR_UF)
+
+STEP_C = r'''
+/* the free variables of the loop body = the constructor's locals that are live across iterations (its "signature"): the seven vectors, D, the work
+ * vector w; n, i, A, prm are parameters of the step function */
+static vec_ptrdiff_t Lptr, Lcol, Uptr, Ucol;
+static vec_value_type Lval, Uval;
+static vec_int Ulev;
+static V D[NMAX + 1]; static size_t D_n;
+static sparse_vector w;
+static void f_row_step(const crs *A_p, const iluk_params *prm_p, const size_t n, const ptrdiff_t i)
+{
+#define A (*A_p)
+#define prm (*prm_p)
+/*@CUT:body@*/
+#undef A
+#undef prm
+}
+'''
+
+SPEC_STEP = SPEC_LEVELS + r'''
+WITNESS_CRS(A)
+/* witness: the row, the dense table of stored levels of the U rows above it (LEV_INF = no entry), n */
+size_t w_n, w_i; int w_ul[NMAX * NMAX];
+static int g_ul[NMAX][NMAX];       /* stored level of U entry (p,j), p < i, p < j < n, or LEV_INF */
+static V g_uv[NMAX][NMAX];         /* its value */
+static int g_rl[NMAX];             /* level of fill of position (i,j) after the row: the recurrence restricted to row i */
+/* loop invariant of the row loop on the work vector (established by the constructor prologue, re-established by every iteration):
+ * q is empty and compares through w.nz, lfil == k, idx has n cells and every cell that is not -1 names a column that occurs in w.nz
+ * (reset() clears exactly the cells named by w.nz), at most n entries with columns in range */
+static _Bool inv_w(const sparse_vector *v, size_t n, int k)
+{
+  if (!(v->lfil == k && v->idx.n == n && v->q.n == 0 && v->q.comp.nz == &v->nz && v->nz.n <= n)) return 0;
+  for (size_t e = 0; e < CAP_ROW; ++e) if (e < v->nz.n) { if (!(v->nz.d[e].col >= 0 && (size_t)v->nz.d[e].col < n)) return 0; }
+  for (size_t c = 0; c < NMAX; ++c) if (c < n && v->idx.d[c] != -1) {
+    _Bool named = 0;
+    for (size_t e = 0; e < CAP_ROW; ++e) if (e < v->nz.n && (size_t)v->nz.d[e].col == c) named = 1;
+    if (!named) return 0;
+  }
+  return 1;
+}
+static void spec_row_levels(const crs *A, size_t n, size_t i, int k)
+{
+  for (size_t j = 0; j < NMAX; ++j) g_rl[j] = (j < n && count_in_row(A, i, j) > 0) ? 0 : LEV_INF;
+  for (size_t p = 0; p < NMAX; ++p) if (p < i && g_rl[p] <= k)
+    for (size_t j = 0; j < NMAX; ++j) if (j > p && j < n && g_ul[p][j] <= k) {
+      const int l = LEV_UPD(g_rl[p], g_ul[p][j]);
+      if (l < g_rl[j]) g_rl[j] = l;
+    }
+}
+/* the slice [b, e) of a column vector is strictly ascending, lies strictly on its side of the diagonal / in range and holds exactly the admitted positions */
+static _Bool new_row_ok(const vec_ptrdiff_t *col, ptrdiff_t b, ptrdiff_t e, size_t n, size_t i, int k, _Bool lower, int what)
+{
+  for (size_t s = 0; s < CAP_FAC; ++s) if ((ptrdiff_t)s >= b && (ptrdiff_t)s < e) {
+    const ptrdiff_t c = col->d[s];
+    if (what == 0) { if (lower ? !(c >= 0 && (size_t)c < i) : !((size_t)c > i && (size_t)c < n)) return 0; if ((ptrdiff_t)s + 1 < e && !(c < col->d[s + 1])) return 0; }
+    if (what == 2) { if (c >= 0 && (size_t)c < n && g_rl[c] > k) return 0; }
+  }
+  if (what == 1)
+    for (size_t j = 0; j < NMAX; ++j) if (j < n && (lower ? j < i : j > i) && g_rl[j] <= k) {
+      _Bool found = 0;
+      for (size_t s = 0; s < CAP_FAC; ++s) if ((ptrdiff_t)s >= b && (ptrdiff_t)s < e && (size_t)col->d[s] == j) found = 1;
+      if (!found) return 0;
+    }
+  return 1;
+}
+#if VALUES
+/* numeric ILU(k) of row i on the FINAL pattern (Saad, Iterative Methods, Alg. 10.5 / two-phase ILU(k)), written with the uninterpreted value operations in the
+ * operand order of the source: the stored entries of the row are accumulated in stored order (first occurrence initialises); pivots p ascending over the admitted
+ * L positions: l_ip = w_p * D_p; every entry u_pj of U row p (stored order) whose position (i,j) is in the final pattern receives -l_ip * u_pj (the first
+ * contribution into a fill position initialises it) */
+static V g_ev[NMAX]; static _Bool g_has[NMAX];
+/* classification for known finding F12 (single-pass ILU(k)): position j of the final pattern is TAINTED when an update reaches it at a level > k while it does not
+ * exist yet (the code has nothing to add the term to) and a later pivot admits it, or when it receives a term from a tainted pivot.  Untainted positions: clause
+ * "values"; tainted ones: clause "single-pass ILU(k)" (the known finding).  g_ex = the position exists at this point of a single pass */
+static _Bool g_taint[NMAX], g_ex[NMAX];
+static void spec_row_values(const crs *A, size_t n, size_t i, int k)
+{
+  for (size_t j = 0; j < NMAX; ++j) { g_has[j] = 0; g_taint[j] = 0; g_ex[j] = g_rl[j] == 0; }
+  for (size_t s = 0; s < CAP_NNZ; ++s) if ((ptrdiff_t)s >= A->ptr[i] && (ptrdiff_t)s < A->ptr[i + 1]) {
+    const size_t j = (size_t)A->col[s];
+    if (j < NMAX) { g_ev[j] = g_has[j] ? UF_ADD(g_ev[j], A->val[s]) : A->val[s]; g_has[j] = 1; }
+  }
+  for (size_t p = 0; p < NMAX; ++p) if (p < i && g_rl[p] <= k && g_has[p]) {
+    g_ev[p] = UF_MUL(g_ev[p], D[p]);
+    for (size_t j = 0; j < NMAX; ++j) if (j > p && j < n && g_ul[p][j] <= k && g_rl[j] <= k) {
+      const V c = UF_MUL(UF_NEG(g_ev[p]), g_uv[p][j]);
+      g_ev[j] = g_has[j] ? UF_ADD(g_ev[j], c) : c; g_has[j] = 1;
+      if (!g_ex[j]) { if (LEV_UPD(g_rl[p], g_ul[p][j]) <= k) g_ex[j] = 1; else g_taint[j] = 1; }
+      if (g_taint[p]) g_taint[j] = 1;
+    }
+  }
+}
+static _Bool new_row_values(const vec_ptrdiff_t *col, const vec_value_type *val, ptrdiff_t b, ptrdiff_t e, _Bool tainted)
+{
+  for (size_t s = 0; s < CAP_FAC; ++s) if ((ptrdiff_t)s >= b && (ptrdiff_t)s < e) {
+    const ptrdiff_t c = col->d[s];
+    if (!(c >= 0 && c < NMAX)) return 0;
+    if (g_taint[c] == tainted && !(g_has[c] && val->d[s] == g_ev[c])) return 0;
+  }
+  return 1;
+}
+#endif
+'''
+
+STEP_HARNESS = r"""
+/* contract of ONE iteration of the row loop (enforced by the harness):
+ *   requires  0 <= i < n <= NMAX; row i of A: NMAX stored entries, any columns < n, the diagonal among them (every pattern row with a diagonal, duplicates where it is shorter)
+ *             Lptr, Uptr have i + 1 cells, monotone from 0, back() == size of the col / val (/ lev) vectors; U rows p < i: any strictly ascending columns in (p, n),
+ *             any stored level in [0, k], any values; D[p] any; L content any; the work vector satisfies the loop invariant inv_w (any stale content)
+ *   assigns   appends to the seven vectors, D[i], w
+ *   ensures   the clauses below (levels: spec_row_levels); inv_w again                                                                        */
+void h_row_step(void)
+{
+  crs *A = crs_input();
+#if N > 0
+  const size_t n = N;                /* concrete per variant */
+#else
+  size_t n; REQUIRES(n >= 1 && n <= NMAX);
+#endif
+#if I >= 0
+  const size_t i = I;                /* concrete per variant */
+#else
+  size_t i; REQUIRES(i < n);
+#endif
+  A->nrows = n; A->ncols = n;
+#if IN
+  /* every row holds NMAX stored entries in any order: every pattern row, duplicates where the pattern row is shorter */
+  A->nnz = n * NMAX;
+  for (size_t r = 0; r < CAP_PTR; ++r) A->ptr[r] = (ptr_type)(r <= n ? r * NMAX : n * NMAX);
+  for (size_t j = 0; j < CAP_NNZ; ++j) { const unsigned char c = nondet_uchar(); A->col[j] = (col_type)(c & 7); }
+  REQUIRES(crs_wf(A, NMAX, NMAX, ZMAX) && count_in_row(A, i, i) >= 1);
+#else
+  /* only row i is read: 1..n stored entries, strictly ascending (no duplicates); the other rows are empty */
+  { const unsigned char len = nondet_uchar() & 7; REQUIRES(len >= 1 && len <= n);
+    A->nnz = len;
+    for (size_t r = 0; r < CAP_PTR; ++r) A->ptr[r] = (ptr_type)(r <= i ? 0 : len);
+    for (size_t j = 0; j < CAP_NNZ; ++j) { const unsigned char c = nondet_uchar(); A->col[j] = (col_type)(c & 7); } }
+  REQUIRES(crs_wf(A, NMAX, NMAX, ZMAX) && crs_rows_sorted(A, 1) && count_in_row(A, i, i) >= 1);
+#endif
+  MIRROR_CRS(A, A);
+  w_n = n; w_i = i;
+  crs_snap s; crs_snapshot(A, &s);
+  /* ---- state: U rows above row i from a dense table of stored levels */
+  Uptr.n = 0; Ucol.n = 0; Uval.n = 0; Ulev.n = 0; VPUSH_GEN(Uptr, 0);
+  for (size_t p = 0; p < NMAX; ++p) {
+    for (size_t j = 0; j < NMAX; ++j) {
+      g_ul[p][j] = LEV_INF;
+      if (p < i && j > p && j < n) {
+        const unsigned char l = nondet_uchar();
+        if (l <= K) { V v; g_ul[p][j] = (int)l; g_uv[p][j] = v; VPUSH_GEN(Ucol, (ptrdiff_t)j); VPUSH_GEN(Uval, v); VPUSH_GEN(Ulev, (int)l); }
+      }
+      w_ul[p * NMAX + j] = g_ul[p][j];
+    }
+    if (p < i) VPUSH_GEN(Uptr, (ptrdiff_t)Ucol.n);
+  }
+  /* L rows above row i: any monotone pointers, any content (the step does not read them) */
+  { vec_ptrdiff_t lp, lc; vec_value_type lv; Lptr = lp; Lcol = lc; Lval = lv; }
+  Lptr.n = i + 1; REQUIRES(Lptr.d[0] == 0);
+  for (size_t r = 0; r < NMAX; ++r) if (r < i) REQUIRES(Lptr.d[r] <= Lptr.d[r + 1]);
+  REQUIRES(Lptr.d[i] >= 0 && (size_t)Lptr.d[i] + NMAX < CAP_FAC + 1);
+  Lcol.n = (size_t)Lptr.d[i]; Lval.n = Lcol.n;
+  { V d0[NMAX + 1]; for (size_t r = 0; r < NMAX + 1; ++r) D[r] = d0[r]; } D_n = n;
+  /* work vector: any content that satisfies the loop invariant */
+  { sparse_vector w0; w.nz = w0.nz; w.idx = w0.idx; w.dia = w0.dia; }
+  w.lfil = K; w.q.n = 0; w.q.comp.nz = &w.nz;
+  REQUIRES(inv_w(&w, n, K) && w.nz.n <= WSTALE);      /* WSTALE < NMAX: bound on the stale entries left by the previous row */
+  const vec_ptrdiff_t Lptr0 = Lptr, Lcol0 = Lcol, Uptr0 = Uptr, Ucol0 = Ucol; const vec_value_type Lval0 = Lval, Uval0 = Uval; const vec_int Ulev0 = Ulev;
+  V D0[NMAX + 1]; for (size_t r = 0; r < NMAX + 1; ++r) D0[r] = D[r];
+  spec_row_levels(A, n, i, K);
+#if VALUES
+  spec_row_values(A, n, i, K);
+#endif
+  g_ilog_n = 0; g_inv_calls = 0;
+  iluk_params P; P.k = K; P.solve = 0;
+
+  f_row_step(A, &P, n, (ptrdiff_t)i);
+
+  ENSURES(!g_cap_exceeded && !g_thrown, "bound artefact / no exception: vectors within verification capacity, the iteration does not throw");
+  ENSURES(crs_unchanged(A, &s), "frame: the input matrix is not modified");
+  const _Bool shape = Lptr.n == i + 2 && Uptr.n == i + 2 && Lptr.d[i + 1] >= Lptr0.d[i] && (size_t)Lptr.d[i + 1] == Lcol.n && Lcol.n == Lval.n
+                   && Uptr.d[i + 1] >= Uptr0.d[i] && (size_t)Uptr.d[i + 1] == Ucol.n && Ucol.n == Uval.n && Ucol.n == Ulev.n && Lcol.n < CAP_FAC && Ucol.n < CAP_FAC;
+  ENSURES(shape, "iluk row step: exactly one row pointer is appended to Lptr and to Uptr, equal to the new size of the col / val (and level) vectors");
+  _Bool frame = 1;
+  for (size_t e = 0; e < CAP_FAC; ++e) {
+    if (e < Lptr0.n && Lptr.d[e] != Lptr0.d[e]) frame = 0; if (e < Uptr0.n && Uptr.d[e] != Uptr0.d[e]) frame = 0;
+    if (e < Lcol0.n && (Lcol.d[e] != Lcol0.d[e] || Lval.d[e] != Lval0.d[e])) frame = 0;
+    if (e < Ucol0.n && (Ucol.d[e] != Ucol0.d[e] || Uval.d[e] != Uval0.d[e] || Ulev.d[e] != Ulev0.d[e])) frame = 0;
+  }
+  for (size_t r = 0; r < NMAX + 1; ++r) if (r != i && D[r] != D0[r]) frame = 0;
+  ENSURES(frame, "frame: the rows of L and U above row i and every D[p], p != i, are unchanged");
+  if (shape) {
+    const ptrdiff_t lb = Lptr0.d[i], le = Lptr.d[i + 1], ub = Uptr0.d[i], ue = Uptr.d[i + 1];
+    ENSURES(new_row_ok(&Lcol, lb, le, n, i, K, 1, 0), "iluk row step: the new row of L lies strictly LEFT of the diagonal, columns strictly ascending");
+    ENSURES(new_row_ok(&Ucol, ub, ue, n, i, K, 0, 0), "iluk row step: the new row of U lies strictly RIGHT of the diagonal, columns in range and strictly ascending");
+#if !VALUES     /* the pattern / level clauses are unit iluk_row_step; the value unit presupposes them */
+    ENSURES(new_row_ok(&Lcol, lb, le, n, i, K, 1, 1), "C06 ILU(k) pattern of L: every position (i,j), j < i, with level of fill <= k is kept");
+    ENSURES(new_row_ok(&Lcol, lb, le, n, i, K, 1, 2), "C06 ILU(k) pattern of L: no position with level of fill > k is kept");
+    ENSURES(new_row_ok(&Ucol, ub, ue, n, i, K, 0, 1), "C06 ILU(k) pattern of U: every position (i,j), j > i, with level of fill <= k is kept");
+    ENSURES(new_row_ok(&Ucol, ub, ue, n, i, K, 0, 2), "C06 ILU(k) pattern of U: no position with level of fill > k is kept");
+    _Bool levs = g_ilog_n >= 0 && (ptrdiff_t)g_ilog_n == ue - ub;
+    for (size_t e = 0; e < CAP_FAC; ++e) if ((ptrdiff_t)e >= ub && (ptrdiff_t)e < ue && levs) { const ptrdiff_t c = Ucol.d[e]; if (!(c >= 0 && c < NMAX && Ulev.d[e] == g_rl[c])) levs = 0; }
+    ENSURES(levs, "C06 ILU(k) levels: the level stored with every kept U entry (i,j) equals the level of fill lev(i,j) (minimum over ALL updates); one level per U entry");
+#endif
+    ENSURES(g_inv_calls == 1 && D[i] == __CPROVER_uninterpreted_inverse(g_inv_arg[0]), "iluk row step: exactly one inversion, D[i] == inverse(pivot_i)");
+#if VALUES
+    ENSURES(new_row_values(&Lcol, &Lval, lb, le, 0) && new_row_values(&Ucol, &Uval, ub, ue, 0) && g_has[i] && (g_taint[i] || g_inv_arg[0] == g_ev[i]),
+            "C06 ILU(k) values: the stored value of every new L / U entry and the inverted pivot are those of the numeric factorisation on the level <= k pattern "
+            "(l_ip = w_p * D_p, w_j = a_ij - sum over the admitted pivots p with (p,j) in U of l_ip * u_pj, operands in source order), for every position that no discarded update precedes");
+    ENSURES(new_row_values(&Lcol, &Lval, lb, le, 1) && new_row_values(&Ucol, &Uval, ub, ue, 1) && (!g_taint[i] || g_inv_arg[0] == g_ev[i]),
+            "C06 ILU(k) values, single-pass ILU(k): an update -l_ip * u_pj that reaches a position (i,j) at a level > k BEFORE a later pivot admits (i,j) at a level <= k is part of the "
+            "value of (i,j) (numeric factorisation on the final pattern: (L U)_ij = a_ij), likewise every term fed by such a position");
+#endif
+  }
+  ENSURES(inv_w(&w, n, K), "iluk row step: the loop invariant on the work vector holds again (queue empty, every idx cell that is not -1 is named by an entry of w.nz)");
+  CANARY("harness.end");
+}
+"""
+
+A_STEP = ['A-step: the unit checks ONE iteration of the row loop for an arbitrary row and an ARBITRARY predecessor state satisfying the stated invariant (a superset of the reachable states); '
+          'that the constructor establishes the invariant and runs the iterations i = 0..n-1 in order is unit iluk_ctor',
+          'A-sig: the loop body is cut at the loop header; its free variables (the constructor locals Lptr Lcol Lval Uptr Ucol Uval Ulev D w, and n, i, A, prm) are declared by the template under their repository names']
+
+
+def step_unit(name, values, props, desc, variants, thorough, bound, not_decided):
+    u = Unit(
+        name=name, props=props,
+        functions=['relaxation::iluk<Backend>::iluk(...) : body of the row loop `for(ptrdiff_t i = 0; i < n; ++i)`', 'iluk::sparse_vector::{add, next_nonzero, sort, reset}',
+                   'iluk::sparse_vector::comp_indices::operator()', 'iluk::nonzero::{nonzero, operator<}'],
+        desc=desc,
+        cuts=dict(HELPER_CUTS, body=STEP_CUT),
+        template=UF16 + VEC_PRELUDE + HELPERS_C + CTOR_C + STEP_C + SPEC_STEP + STEP_HARNESS,
+        entry='h_row_step', mode='unwound', unwind='NMAX*NMAX+3', model='uf',
+        defines={'LEVSUM': 0, 'VALUES': 1 if values else 0, 'N': 0, 'I': -1, 'IN': 1, 'WSTALE': 99},
+        variants=variants, thorough_variants=thorough, bound_text=bound,
+        assumptions=A_ILUK + A_STEP, replay='iluk', timeout=300, witness=wit('A') + ['w_n', 'w_i', 'w_ul'],
+        not_decided=not_decided)
+    u.unwindset = [(r'while\(!pq_empty', '(I+1) if I >= 0 else NMAX')] + ILUK_UNWINDSET      # row i has at most i pivots
+    u.cover_exempt = r'^canary sv_init\.'     # the sparse_vector constructor runs in the constructor prologue (unit iluk_ctor), not in an iteration
+    return u
+
+
+STEP_DESC = ('one iteration of the ILU(k) row loop from an arbitrary well-formed predecessor state: the new rows of L and U hold EXACTLY the positions (i,j) whose level of fill is <= k, '
+             'lev(i,j) = 0 on the stored entries of row i, else the minimum over the admitted pivots p < min(i,j) (lev(i,p) <= k, (p,j) stored in U with level <= k) of max(lev(i,p), lev(p,j)) + 1 '
+             '(the documented recursive-product definition), evaluated on integers by the harness; the level stored with every new U entry equals lev(i,j) (minimum over ALL updates, whichever '
+             'side of the diagonal); new rows strictly ascending, strictly lower / upper, in range; one row pointer appended each; D[i] = inverse of one value, inverted once; rows above and '
+             'every other D untouched; the work vector satisfies the loop invariant again; subscripts within their arrays, top()/pop() only on a non-empty queue')
+
+iluk_row_step = step_unit('iluk_row_step', False, ['C06', 'C10'], STEP_DESC,
+                          variants=[{'NMAX': 4, 'ZMAX': 16, 'K': 2, 'N': 4, 'I': 2}, {'NMAX': 4, 'ZMAX': 16, 'K': 2, 'N': 4, 'I': 3, 'IN': 0, 'WSTALE': 1}, {'NMAX': 3, 'ZMAX': 9, 'K': 1}], thorough=None, bound='', not_decided=NOT_DECIDED_ILUK)
+
+# KNOWN FINDING F12 (open): the value clause fails on the unchanged tree (single-pass ILU(k): an update that reaches a not-yet-existing position at a level > k is
+# discarded by sparse_vector::add; when a later pivot creates the position at a level <= k the discarded term is missing from the stored value, so (L U)_ij != a_ij on
+# the admitted pattern; native witness: 5x5, k = 1, diag(4) + (0,1)=(1,4)=(2,4)=(3,0)=(3,2)=-1: (L U)(3,4) = 0.0625 != 0).  props: C06 only.
+iluk_row_values = step_unit('iluk_row_values', True, ['C06'],
+                            STEP_DESC + '; VALUE clause: the stored values of the new rows and the inverted pivot are those of the numeric factorisation on the FINAL pattern (every update '
+                            '-l_ip * u_pj into an admitted position is applied; uninterpreted operations in the operand order of the source)',
+                            variants=[{'NMAX': 4, 'ZMAX': 16, 'K': 1, 'N': 4, 'I': 2, 'IN': 0, 'WSTALE': 1}], thorough=None, bound='',
+                            not_decided=[x for x in NOT_DECIDED_ILUK if not x.startswith('which value')] + ['exactness in floating point (values are uninterpreted: the unit pins which operands meet which operator in which order)'])
+
+# the value unit runs the SAME code under the SAME precondition as iluk_row_step, which discharges the generic safety checks (pointer, bounds, overflow, conversion);
+# they are not generated a second time here (the named obligations -- subscripts within the logical length, queue non-empty, ENSURES -- stay)
+iluk_row_values.drop_checks = ['--bounds-check', '--pointer-check', '--signed-overflow-check', '--conversion-check', '--div-by-zero-check']
+iluk_row_values.flags = ['--no-standard-checks']      # CBMC 6 switches the standard checks on by default
+iluk_row_values.assumptions.append('A-safety-elsewhere: the generic CBMC checks (pointer, bounds, overflow, conversion) of this code under this precondition are obligations of unit iluk_row_step, not repeated here')
+
+# ============================================================================ relaxation::ilup
+ILUP = 'amgcl/relaxation/ilup.hpp'
+
+
+class AliasInline(object):
+    """`auto x = M.ptr;` / `auto x = M->col;` (M a matrix, the member one of ptr / col / val) declares an alias of the member array: the declaration is dropped and
+    every later use of x is replaced by the member expression, so that the subscripts carry the logical-bounds obligations of the member arrays.  Keyed on the
+    initialiser syntax, not on the alias name."""
+    early = False
+
+    def __init__(self, count='+'):
+        self.count = count
+        self.pat = 'AliasInline'
+
+    def apply(self, text, log, generic=False):
+        rx = re.compile(r'^[ \t]*auto (?P<n>\w+) = (?P<e>\w+(?:\.|->)(?:ptr|col|val));[ \t]*\n', re.M)
+        names = {}
+        while True:
+            m = rx.search(text)
+            if not m:
+                break
+            names[m.group('n')] = m.group('e')
+            text = text[:m.start()] + re.sub(r'(?<![\w.>])%s\b' % re.escape(m.group('n')), m.group('e'), text[m.end():])
+        n = len(names)
+        if (self.count == '+' and n < 1) or (isinstance(self.count, int) and n != self.count):
+            raise ExtractError('AliasInline fired %d times, expected %s' % (n, self.count))
+        log.append({'rule': 'R-alias auto x = M.member -> uses of x are M.member', 'fired': n, 'names': names})
+        return text
+
+
+SYMB_CUT = Cut(
+    ILUP, r'template <class Matrix>\s*std::shared_ptr<Matrix> symb_product\(const Matrix &A, const Matrix &B\)\s*(?=\{)',
+    rules=[
+        Rule(r'\bauto (\w+) = std_make_shared<Matrix>\(\);', r'crs *const \1 = crs_new();', 1, why='R-new make_shared<crs>()'),
+        AliasInline('+'),
+        Rule(r'\b(\w+)->set_size\(([^,()]+), ([^,()]+)\);', r'crs_set_size(\1, \2, \3, 0 /* default clean_ptr = false */);', 1, why='R-member-call'),
+        Rule(r'\b(\w+)->scan_row_sizes\(\)', r'crs_scan_row_sizes(\1)', 1, why='R-member-call'),
+        Rule(r'\b(\w+)->set_nonzeros\(', r'crs_set_nonzeros_n(\1, ', 1, why='R-member-call'),
+        Rule(r'std_vector<ptrdiff_t> (\w+)\(([^,;]+), ([^,;)]+)\);', r'ptrdiff_t *\1 = vec_idx_new(\2, \3); const size_t \1_n = (size_t)(\2);', 2, why='R-vec-local std::vector<ptrdiff_t> v(n, x)'),
+        Rule(r'std_sort\((?P<a>[^;]+?) \+ (?P<b>\w+), (?P=a) \+ (?P<e>\w+)\);', r'std_sort_cols(\g<a>, \g<b>, \g<e>, C->nnz);', 1, why='R-std std::sort(p + b, p + e) on a column array'),
+        IdxRule(r'C->col', 'C->nnz', '+'), IdxRule(r'C->ptr', 'C->nrows + 1', '+'),
+        IdxRule(r'marker', 'marker_n', None),
+        IdxRule(r'A\.col', 'nonzeros(A)', '+'), IdxRule(r'B\.col', 'nonzeros(B)', '+'),
+        IdxRule(r'A\.ptr', 'rows(A) + 1', '+'), IdxRule(r'B\.ptr', 'rows(B) + 1', '+'),
+    ])
+
+SYMB_C = r'''
+/* std::vector<ptrdiff_t> v(n, init) (A-vec) */
+static ptrdiff_t *vec_idx_new(size_t n, ptrdiff_t init)
+{
+  if (n > CAP_PTR) g_cap_exceeded = 1;
+  ptrdiff_t *p = (ptrdiff_t *)malloc(sizeof(ptrdiff_t) * CAP_PTR);
+  for (size_t i = 0; i < CAP_PTR; ++i) p[i] = init;
+  return p;
+}
+/* std::sort(col + b, col + e) (A-std): ascending; the range must lie inside the array */
+static void std_sort_cols(col_type *col, ptrdiff_t b, ptrdiff_t e, size_t len)
+{
+#if defined(CXC_CBMC) && !defined(CXC_CANARY)
+  __CPROVER_assert(0 <= b && b <= e && (size_t)e <= len, "safety.idx. std::sort range within the logical length of the column array");
+#endif
+  /* a row of the product holds at most NMAX distinct columns: bubble sort over the window [b, b + NMAX) */
+  if (e - b > NMAX) { g_cap_exceeded = 1; return; }
+  for (ptrdiff_t pass = 0; pass < NMAX; ++pass)
+    for (ptrdiff_t t = 0; t + 1 < NMAX; ++t) if (b + t + 1 < e) {
+      const ptrdiff_t j = b + t;
+      if (col[j + 1] < col[j]) { const col_type x = col[j]; col[j] = col[j + 1]; col[j + 1] = x; }
+    }
+}
+typedef crs Matrix;
+/* template <class Matrix> std::shared_ptr<Matrix> detail::symb_product(const Matrix &A, const Matrix &B) */
+static crs *f_symb_product(const crs *A_p, const crs *B_p)
+{
+#define A (*A_p)
+#define B (*B_p)
+/*@CUT:body@*/
+#undef A
+#undef B
+}
+'''
+
+SPEC_SYMB = r'''
+static _Bool stored(const crs *M, size_t i, size_t j)
+{
+  for (size_t e = 0; e < CAP_NNZ; ++e) if ((ptrdiff_t)e >= M->ptr[i] && (ptrdiff_t)e < M->ptr[i + 1] && (size_t)M->col[e] == j) return 1;
+  return 0;
+}
+/* boolean product: (i,j) is in pattern(A) x pattern(B) iff some l has (i,l) stored in A and (l,j) stored in B */
+static _Bool symb_pattern_ok(const crs *A, const crs *B, const crs *C)
+{
+  for (size_t i = 0; i < NMAX; ++i) for (size_t j = 0; j < NMAX; ++j) if (i < A->nrows && j < B->ncols) {
+    _Bool want = 0;
+    for (size_t l = 0; l < NMAX; ++l) if (l < A->ncols && stored(A, i, l) && stored(B, l, j)) want = 1;
+    if (stored(C, i, j) != want) return 0;
+  }
+  return 1;
+}
+'''
+
+ilup_symb = Unit(
+    name='ilup_symb_product', props=['C06', 'C10'],
+    functions=['relaxation::detail::symb_product(const Matrix&, const Matrix&)', 'crs::set_size', 'crs::scan_row_sizes', 'crs::set_nonzeros'],
+    desc='symbolic sparse product used by ILUP: the result is rows(A) x cols(B), well formed, every row strictly ascending (sorted, no duplicates), (i,j) stored iff some (i,l) is '
+         'stored in A and (l,j) in B; no values are allocated; A and B unchanged; every subscript and the sorted range within the arrays',
+    cuts=dict(crs_member_cuts(), body=SYMB_CUT),
+    template='#define MODEL_INT32 1\n#define CAP_NNZ ((ZMAX > NMAX * NMAX ? ZMAX : NMAX * NMAX) + 1)\n' + VEC_PRELUDE + CRS_MEMBERS_C + SYMB_C + SPEC_SYMB + r"""
+WITNESS_CRS(A)
+WITNESS_CRS(B)
+unsigned char nondet_uchar(void);
+static crs *crs_input_narrow(void)
+{
+  crs *a = crs_input();
+  a->nrows = nondet_uchar() & 7; a->ncols = nondet_uchar() & 7; a->nnz = nondet_uchar() & 7;
+  for (size_t i = 0; i < CAP_PTR; ++i) a->ptr[i] = nondet_uchar() & 7;
+  for (size_t j = 0; j < CAP_NNZ; ++j) { a->col[j] = nondet_uchar() & 7; a->val[j] = 0; }
+  return a;
+}
+/* contract (enforced by the harness): requires A, B well-formed (any pattern: unsorted, duplicates, empty rows), cols(A) == rows(B) */
+void h_symb(void)
+{
+#if SLOTS
+  /* every row holds SLOTS stored entries with any columns (duplicates where the pattern row is shorter): SLOTS == NMAX covers every pattern without empty rows */
+  crs *A = crs_input(), *B = crs_input();
+  const size_t na = nondet_uchar() & 7, nb = nondet_uchar() & 7, mb = nondet_uchar() & 7;
+  REQUIRES(na <= NMAX && nb <= NMAX && mb <= NMAX);
+  A->nrows = na; A->ncols = nb; A->nnz = na * SLOTS; B->nrows = nb; B->ncols = mb; B->nnz = nb * SLOTS;
+  for (size_t i = 0; i < CAP_PTR; ++i) { A->ptr[i] = (ptr_type)((i <= na ? i : na) * SLOTS); B->ptr[i] = (ptr_type)((i <= nb ? i : nb) * SLOTS); }
+  for (size_t j = 0; j < CAP_NNZ; ++j) { A->col[j] = nondet_uchar() & 7; B->col[j] = nondet_uchar() & 7; A->val[j] = 0; B->val[j] = 0; }
+#else
+  crs *A = crs_input_narrow(), *B = crs_input_narrow();
+#endif
+  REQUIRES(crs_wf(A, NMAX, NMAX, ZMAX) && crs_wf(B, NMAX, NMAX, ZMAX) && A->ncols == B->nrows);
+  MIRROR_CRS(A, A); MIRROR_CRS(B, B);
+  crs_snap sa, sb; crs_snapshot(A, &sa); crs_snapshot(B, &sb);
+  crs *C = f_symb_product(A, B);
+  ENSURES(!g_cap_exceeded && !g_thrown, "bound artefact / no exception: allocation within verification capacity");
+  ENSURES(C != 0 && C->nrows == A->nrows && C->ncols == B->ncols, "symb_product: result is rows(A) x cols(B)");
+  if (C != 0) {
+    const _Bool cwf = crs_wf(C, NMAX, NMAX, CAP_NNZ - 1) && C->nnz == (size_t)C->ptr[C->nrows];
+    ENSURES(cwf, "symb_product: result is well-formed CRS (monotone ptr from 0, columns in range, nnz == ptr[n])");
+    ENSURES(!cwf || crs_rows_sorted(C, 1), "symb_product: every row of the result is strictly ascending (sorted, no duplicate column)");
+    ENSURES(!cwf || symb_pattern_ok(A, B, C), "C06 ILUP pattern: (i,j) is stored in symb_product(A, B) iff some (i,l) is stored in A and (l,j) in B");
+    ENSURES(C->val == 0, "symb_product: no value array is allocated (set_nonzeros(n, need_values = false))");
+  }
+  ENSURES(crs_unchanged(A, &sa) && crs_unchanged(B, &sb), "frame: the operands are not modified");
+  CANARY("harness.end");
+}
+""",
+    entry='h_symb', mode='unwound', unwind='NMAX*NMAX+3', model='int32',
+    variants=[{'NMAX': 2, 'ZMAX': 3, 'SLOTS': 0}, {'NMAX': 3, 'ZMAX': 3, 'SLOTS': 1}, {'NMAX': 2, 'ZMAX': 4, 'SLOTS': 2}],
+    bound_text='',
+    assumptions=A_RELAX + ['A-new: operator new[] never returns null; fresh arrays have nondeterministic content', 'A-callee: crs::set_size / scan_row_sizes / set_nonzeros bodies are inlined from /repo',
+                           'A-std-sort: std::sort on a range of a column array is an insertion sort stub (ascending)'],
+    replay='iluk', timeout=300, witness=wit('A', 'B'),
+    not_decided=['n beyond the bound'])
+ilup_symb.unwindset = [(r'for\(ptrdiff_t ia = 0;', 'NMAX+1'), (r'for\(ptrdiff_t ja = ', '(SLOTS if SLOTS else ZMAX)+1'), (r'for\(ptrdiff_t jb = ', '(SLOTS if SLOTS else ZMAX)+1'), (r'< NMAX;', 'NMAX+1')]
+ilup_symb.cover_exempt = r'^canary set_size\.1$|^canary set_nonzeros_n\.[1-9]'
+
+
+# ---------------------------------------------------------------------------- ilup constructor (symb_product and the ilu0 constructor by contract)
+ILUP_CUT = Cut(
+    ILUP, r'template <class Matrix>\s*ilup\( const Matrix &A, const params &prm, const typename Backend::params &bprm\)\s*: prm\(prm\)\s*(?=\{)',
+    rules=[
+        Rule(r'\bbase = std_make_shared<Base>\((?P<m>[^,;]+), prm, bprm\);', r'ILU0_MADE(self, \g<m>);', 2,
+             why='member base = make_shared<ilu0>(M, prm, bprm): ghost hook recording the matrix argument (the ILU(0) constructor is unit ilu0_structure)'),
+        Rule(r'\bauto (\w+) = detail::symb_product\((?P<a>[^,;]+), (?P<b>[^,;()]+)\);', r'crs *\1 = symb_product(&(\g<a>), &(\g<b>));', 1, why='R-call detail::symb_product (contract: unit ilup_symb_product)'),
+        Rule(r'(?<![\w.>])(\w+) = detail::symb_product\((?P<a>[^,;]+), (?P<b>[^,;()]+)\);', r'\1 = symb_product(&(\g<a>), &(\g<b>));', 1, why='R-call detail::symb_product'),
+        Rule(r'NEW\(value_type,', 'NEW_NNZ(value_type,', 1, why='R-new'),
+        Rule(r'std_fill\((?P<p>[^;]+?) \+ (?P<b>\w+), (?P=p) \+ (?P<e>\w+), ', r'std_fill_vals(\g<p>, \g<b>, \g<e>, P->nnz, ', 1, why='R-std std::fill(p + b, p + e, x) on a value array'),
+        IdxRule(r'P->col|P->val', 'P->nnz', '+'), IdxRule(r'P->ptr', 'P->nrows + 1', '+'),
+        IdxRule(r'A\.col|A\.val', 'nonzeros(A)', '+'), IdxRule(r'A\.ptr', 'rows(A) + 1', '+'),
+    ])
+
+ILUP_C = r"""
+typedef crs Matrix;
+/* std::fill(val + b, val + e, x) (A-std); the range must lie inside the array */
+static void std_fill_vals(val_type *val, ptrdiff_t b, ptrdiff_t e, size_t len, val_type x)
+{
+#if defined(CXC_CBMC) && !defined(CXC_CANARY)
+  __CPROVER_assert(0 <= b && b <= e && (size_t)e <= len, "safety.idx. std::fill range within the logical length of the value array");
+#endif
+  for (ptrdiff_t j = 0; j < CAP_NNZ; ++j) if (j >= b && j < e) val[j] = x;
+}
+static _Bool stored(const crs *M, size_t i, size_t j)
+{
+  for (size_t e = 0; e < CAP_NNZ; ++e) if ((ptrdiff_t)e >= M->ptr[i] && (ptrdiff_t)e < M->ptr[i + 1] && (size_t)M->col[e] == j) return 1;
+  return 0;
+}
+/* detail::symb_product(X, Y) by its contract (unit ilup_symb_product): a fresh rows(X) x cols(Y) matrix, rows strictly ascending, (i,j) stored iff some (i,l) in X
+ * and (l,j) in Y, no value array; the calls are logged (operands by address) */
+static int g_sp_calls; static const crs *g_sp_x[4], *g_sp_y[4]; static crs *g_sp_r[4];
+static crs *symb_product(const crs *X, const crs *Y)
+{
+  crs *c = crs_new();
+  c->nrows = X->nrows; c->ncols = Y->ncols;
+  c->ptr = (ptr_type *)malloc(sizeof(ptr_type) * CAP_PTR); c->col = (col_type *)malloc(sizeof(col_type) * CAP_NNZ);
+  ptrdiff_t head = 0; c->ptr[0] = 0;
+  for (size_t i = 0; i < NMAX; ++i) if (i < X->nrows) {
+    for (size_t j = 0; j < NMAX; ++j) if (j < Y->ncols) {
+      _Bool want = 0;
+      for (size_t l = 0; l < NMAX; ++l) if (l < X->ncols && l < Y->nrows && stored(X, i, l) && stored(Y, l, j)) want = 1;
+      if (want) { c->col[head] = (col_type)j; ++head; }
+    }
+    c->ptr[i + 1] = head;
+  }
+  c->nnz = (size_t)head;
+  if (g_sp_calls < 4) { g_sp_x[g_sp_calls] = X; g_sp_y[g_sp_calls] = Y; g_sp_r[g_sp_calls] = c; }
+  g_sp_calls++;
+  return c;
+}
+/* relaxation::ilup: params (k; the ilu0 params are passed on), member base = the ILU(0) smoother made from a matrix */
+typedef struct { int k; } ilup_params;
+typedef struct { ilup_params prm; const crs *base_of; int made; } ilup_t;
+#define ILU0_MADE(self, m) do { (self)->base_of = &(m); (self)->made++; } while (0)
+static void f_ilup(ilup_t *self, const crs *A_p, const ilup_params *prm_p, int bprm)
+{
+  self->prm = *prm_p;             /* : prm(prm) */
+#define A (*A_p)
+#define prm (*prm_p)
+/*@CUT:body@*/
+#undef A
+#undef prm
+}
+"""
+
+ilup_ctor = Unit(
+    name='ilup_ctor', props=['C06', 'C10'],
+    functions=['relaxation::ilup<Backend>::ilup(const Matrix&, const params&, const backend_params&)'],
+    desc='ILUP(k) constructor, call level: k == 0: the ILU(0) smoother is made from A itself; k >= 1: exactly k calls of detail::symb_product, the first on (A, A), every later one on '
+         '(previous result, A), so the final matrix has the pattern of A^(k+1); its value array is allocated, every stored value is zero except at the positions stored in A, which '
+         'hold a_ij (the pattern of A is contained in it: stored diagonal); the ILU(0) smoother is made exactly once, from that matrix; A unchanged; every subscript, the filled '
+         'range and the merge cursor P->col[jp] within the arrays',
+    cuts={'body': ILUP_CUT},
+    template=UF16 + '#define CAP_NNZ (NMAX * NMAX + 1)\n' + VEC_PRELUDE + ILUP_C + r"""
+WITNESS_CRS(A)
+/* pattern of the boolean power A^(m): g_pw[i][j] */
+static _Bool g_pw[NMAX][NMAX];
+static void spec_power(const crs *A, size_t n, int m)
+{
+  _Bool a[NMAX][NMAX];
+  for (size_t i = 0; i < NMAX; ++i) for (size_t j = 0; j < NMAX; ++j) { a[i][j] = i < n && j < n && stored(A, i, j); g_pw[i][j] = a[i][j]; }
+  for (int s = 1; s < 4; ++s) if (s < m) {
+    _Bool t[NMAX][NMAX];
+    for (size_t i = 0; i < NMAX; ++i) for (size_t j = 0; j < NMAX; ++j) { t[i][j] = 0; for (size_t l = 0; l < NMAX; ++l) if (g_pw[i][l] && a[l][j]) t[i][j] = 1; }
+    for (size_t i = 0; i < NMAX; ++i) for (size_t j = 0; j < NMAX; ++j) g_pw[i][j] = t[i][j];
+  }
+}
+/* contract (enforced by the harness):
+ *   requires  A n x n well-formed, rows strictly ascending (A-sorted), every row has a stored diagonal entry (A-diag); prm.k == K
+ *   ensures   the clauses below                                                                                   */
+void h_ilup(void)
+{
+  crs *A = crs_input();
+  REQUIRES(crs_wf(A, NMAX, NMAX, ZMAX) && A->nrows == A->ncols && crs_rows_sorted(A, 1));
+  const size_t n = A->nrows;
+  for (size_t i = 0; i < NMAX; ++i) if (i < n) REQUIRES(stored(A, i, i));
+  MIRROR_CRS(A, A);
+  crs_snap s; crs_snapshot(A, &s);
+  spec_power(A, n, K + 1);
+  ilup_params P; P.k = K;
+  ilup_t S; S.base_of = 0; S.made = 0;
+  f_ilup(&S, A, &P, 0);
+  ENSURES(!g_cap_exceeded && !g_thrown, "bound artefact / no exception: allocation within verification capacity");
+  ENSURES(crs_unchanged(A, &s), "frame: the input matrix is not modified");
+  ENSURES(S.made == 1 && S.base_of != 0, "ilup: the ILU(0) smoother is made exactly once");
+  ENSURES(g_sp_calls == K, "C06 ILUP: exactly k symbolic products");
+#if K == 0
+  ENSURES(S.base_of == A, "C06 ILUP(0): the ILU(0) smoother is made from A itself");
+#else
+  _Bool chain = g_sp_calls == K && g_sp_x[0] == A && g_sp_y[0] == A;
+  for (int c = 1; c < 4; ++c) if (c < K && chain) { if (!(g_sp_x[c] == g_sp_r[c - 1] && g_sp_y[c] == A)) chain = 0; }
+  ENSURES(chain, "C06 ILUP: the first symbolic product is A x A, every later one (previous result) x A");
+  ENSURES(chain && S.base_of == g_sp_r[K - 1], "C06 ILUP: the ILU(0) smoother is made from the result of the last symbolic product");
+  if (S.made == 1 && S.base_of != 0 && chain && S.base_of == g_sp_r[K - 1]) {
+    const crs *M = S.base_of;
+    _Bool pat = M->nrows == n && M->ncols == n;
+    for (size_t i = 0; i < NMAX; ++i) for (size_t j = 0; j < NMAX; ++j) if (i < n && j < n && pat) { if (stored(M, i, j) != g_pw[i][j]) pat = 0; }
+    ENSURES(pat, "C06 ILUP pattern: the matrix handed to ILU(0) has the pattern of A^(k+1)");
+    ENSURES(M->val != 0, "ilup: the value array of the pattern matrix is allocated");
+    _Bool vals = M->val != 0;
+    for (size_t i = 0; i < NMAX; ++i) if (i < n && vals)
+      for (size_t e = 0; e < CAP_NNZ; ++e) if ((ptrdiff_t)e >= M->ptr[i] && (ptrdiff_t)e < M->ptr[i + 1]) {
+        const size_t j = (size_t)M->col[e];
+        V want = MATH_zero(value_type);
+        for (size_t q = 0; q < CAP_NNZ; ++q) if ((ptrdiff_t)q >= A->ptr[i] && (ptrdiff_t)q < A->ptr[i + 1] && (size_t)A->col[q] == j) want = A->val[q];
+        if (M->val[e] != want) vals = 0;
+      }
+    ENSURES(vals, "C06 ILUP values: every stored value of the pattern matrix is a_ij where A stores (i,j) and zero elsewhere (every cell written)");
+  }
+#endif
+  CANARY("harness.end");
+}
+""",
+    entry='h_ilup', mode='unwound', unwind='NMAX*NMAX+3', model='uf',
+    variants=[{'NMAX': 3, 'ZMAX': 5, 'K': 1}, {'NMAX': 3, 'ZMAX': 5, 'K': 2}, {'NMAX': 3, 'ZMAX': 5, 'K': 0}],
+    bound_text='',
+    assumptions=A_RELAX + A_UF + A_UF16 + [
+        'A-sorted: the rows of A are sorted by column without duplicates (the values are merged into the sorted product rows)',
+        'A-diag: every row of A has a stored diagonal entry (property quantifier "non-zero diagonal"): the pattern of A is then contained in the pattern of A^(k+1)',
+        'A-callee: detail::symb_product by its contract (unit ilup_symb_product); make_shared<ilu0>(M, prm, bprm) is a ghost hook recording M (unit ilu0_structure)',
+        'A-new: operator new[] never returns null; fresh arrays have nondeterministic content'],
+    replay='iluk', timeout=300, witness=wit('A'),
+    not_decided=['what ILU(0) does with the matrix (unit ilu0_structure); explicit zeros in the pattern matrix are dropped again by ilu0 when their computed value is_zero',
+                 'OBSERVATION (outside the quantifier): without a stored diagonal the merge cursor `P->col[jp]` is read at jp == p_end (one past the row, past the array for the last row)',
+                 'n beyond the bound'])
+ilup_ctor.unwindset = [(r'for\(ptrdiff_t i = 0;', 'NMAX+1'), (r'for\(ptrdiff_t ja = ', 'NMAX+1'), (r'while\(jp < ep', 'NMAX+1'), (r'for\(int k = 1;', 'K+1'), (r'< NMAX;', 'NMAX+1'), (r'< 4;', '5')]
+
+
+UNITS = [iluk_ctor, iluk_row_step, iluk_row_values, ilup_symb, ilup_ctor]
 CANDIDATE_DEFECT_UNITS = []
 for _u in UNITS + CANDIDATE_DEFECT_UNITS:
     _u.replay_asan = True
